@@ -2,6 +2,7 @@
 """usage: mkprompt.py <PROP> <round-tag> -> prints the prompt for a seeding agent (property text only)"""
 import json, sys
 pid, tag = sys.argv[1], sys.argv[2]
+extra = sys.argv[3] if len(sys.argv) > 3 else ""
 prop = None
 for l in open('/verif/properties.jsonl'):
     d = json.loads(l)
@@ -34,6 +35,8 @@ Each change is a SMALL edit (typically 1-15 lines) to non-test source of `prqlc/
 4. looks like a plausible mistake or "simplification"/"optimisation"/"cleanup" a developer could make in a real commit (an off-by-one, a dropped guard, a condition made slightly too wide or too narrow, a state field not restored, a changed default, an iterator adapter that drops elements, a swapped argument, a reordered pair of statements, an early return, a cache, a changed key of a map or of a sort ...).
 
 The three changes must be INDEPENDENT of each other (each applies alone to the clean tree) and should use three DIFFERENT mechanisms in DIFFERENT functions (preferably different files). Prefer secondary mechanisms and less obvious places over the single most central table or function of the feature: look at helpers, save/restore of state, the order of two statements, defaults, conversions, error paths, interplay between two stages of the compiler.
+
+{extra}
 
 Work one change at a time: start from a clean worktree (`git -C {wt} checkout -- .`), make the edit, build, run the FULL test suite (all 613 must pass — if a test fails, the change is not acceptable: find another), write and verify the demonstration both ways (with the change: exit 1; after `git -C {wt} checkout -- .`: exit 0), then save the artefacts and clean the worktree before the next change.
 
